@@ -115,14 +115,23 @@ static void check_state(const char* unused) {
   }
   /* checked access to every claimed index (and one beyond): works (address in live storage, stable) or throws */
   u64 claimed = vp_claimed(&vec);
-  for (u64 i = 0; i < MAXIDX; i++) if (i <= claimed) {
+  for (u64 i = 0; i < MAXIDX; i++) if (i <= claimed + 2) {
     u8* p = vp_try_at(&vec, i);
     VP_ASSERT(vp_exc == 0, "exception pending after a catching caller");
-    if (i == claimed) { VP_ASSERT(p == 0, "at(size) did not throw"); continue; }
+    if (i >= claimed) { VP_ASSERT(p == 0, "at(i) with i >= size did not throw"); continue; }
     if (!p) continue;
     VP_ASSERT(in_live(p), "at(i) returned an address outside the storage handed out by the allocator");
     if (idx_addr[i]) VP_ASSERT(idx_addr[i] == p, "address of element i changed");
+    for (u64 j = 0; j < MAXIDX; j++) if (j < i && idx_addr[j]) VP_ASSERT(idx_addr[j] != p, "at(i) and at(j) return the same slot for i != j");
     idx_addr[i] = p;
+  }
+  /* size() never counts an index whose segment is missing: operator[] below size() stays inside allocator storage */
+  u64 sz = vp_size(&vec);
+  VP_ASSERT(sz <= claimed, "size() beyond the claimed size");
+  for (u64 i = 0; i < MAXIDX; i++) if (i < sz) {
+    u8* q = vp_at(&vec, i);
+    VP_ASSERT(in_live(q), "operator[](i) with i < size() addresses memory outside the storage handed out by the allocator");
+    if (idx_addr[i]) VP_ASSERT(idx_addr[i] == q, "operator[] and at() disagree on the address of element i");
   }
 }
 static u32 do_op(int op, u64 arg, u32 val) {
@@ -133,7 +142,11 @@ static u32 do_op(int op, u64 arg, u32 val) {
 int main(void) {
   vp_vec_init(&vec);
   u32 v0 = (u32)vp_nd(), v1 = (u32)vp_nd(), v2 = (u32)vp_nd();   /* element values: symbolic data, never control */
-  for (unsigned i = 0; i < PRE; i++) VP_ASSERT(do_op(1, 0, v0) == 0, "healthy push_back threw");
+#ifndef PMODE
+#define PMODE 0                     /* pre-growth: 0 = PRE push_backs (first block = 1 segment), 1 = one grow_by(PRE) (first block sized for PRE) */
+#endif
+  if (PMODE == 1 && PRE > 0) VP_ASSERT(do_op(0, PRE, v0) == 0, "healthy grow_by threw");
+  if (PMODE == 0) for (unsigned i = 0; i < PRE; i++) VP_ASSERT(do_op(1, 0, v0) == 0, "healthy push_back threw");
   check_state(0);
   unsigned log0 = n_log;
   /* OP1 with the fault */
